@@ -2,6 +2,7 @@
 * Copyright (C) 2018-2025 by Pavel Kisliak                                     *
 * This file is part of BitSerializer library, licensed under the MIT license.  *
 *******************************************************************************/
+#include <cstring>
 #include "msgpack_readers.h"
 #include "bitserializer/conversion_detail/memory_utils.h"
 
@@ -222,7 +223,10 @@ namespace
 	{
 		if (pos + sizeof(T) <= inputData.size())
 		{
-			outValue = Memory::BigEndianToNative(*reinterpret_cast<const T*>(inputData.data() + pos));
+			// The data may be unaligned (must not be read through a pointer to T)
+			T networkVal;
+			std::memcpy(&networkVal, inputData.data() + pos, sizeof(T));
+			outValue = Memory::BigEndianToNative(networkVal);
 			pos += sizeof(T);
 		}
 		else {
@@ -837,7 +841,10 @@ namespace
 	{
 		if (const auto data = binaryStreamReader.ReadSolidBlock(sizeof(T)); !data.empty())
 		{
-			outValue = Memory::BigEndianToNative(*reinterpret_cast<const T*>(data.data()));
+			// The data may be unaligned (must not be read through a pointer to T)
+			T networkVal;
+			std::memcpy(&networkVal, data.data(), sizeof(T));
+			outValue = Memory::BigEndianToNative(networkVal);
 		}
 		else {
 			throw ParsingException("Unexpected end of input archive", 0, binaryStreamReader.GetPosition());
